@@ -1201,7 +1201,7 @@ def units(tier: str, vseed: int) -> list:
         sweep_len = 4
     else:
         n_enum = len(PATH_CALLS) * 2 * len(FINAL_SEGS) * (1 + len(DIR_SEGS) + len(DIR_SEGS) ** 2)  # depth <= 2, complete
-        plan = [("path_enum", -(-n_enum // 800), 800), ("path", 800, 800), ("schema", 320, 500), ("frozen", 200, 250), ("uri", 64, 240), ("path_seq", 16, 216)]
+        plan = [("path_enum", -(-n_enum // 800), 800), ("path", 800, 800), ("schema", 800, 200), ("frozen", 250, 200), ("uri", 64, 240), ("path_seq", 16, 216)]
         sweep_len = 5
     for kind, n, per in plan:
         for i in range(n):
